@@ -1,8 +1,104 @@
-(* C09 - rule references resolve the same way whatever the document order. (statements only) *)
+(* C09 - rule references resolve the same way whatever the document order.
+   Only statements, each closed by `exact`, with Print Assumptions.
+
+   The model (Model.RefOrder) follows the REPAIRED code of the repo worktree (two `fix:` commits:
+   topological order instead of sorted() with a partial order; output suppression also for
+   correlation rules).  A rule is identified by the position of its document; `rr` is the table of
+   resolved references; the backend's rendering functions rplain / rcorr are arbitrary. *)
 From Coq Require Import NArith List Bool Arith Permutation.
 From PS Require Import Base.Chars Base.Outcome Model.RefOrder Spec.RefOrder Proofs.RefOrderP.
 Import ListNotations.
+Local Open Scope nat_scope.
 
-Theorem C09_sorted_refuted : True.
-Proof. exact I. Qed.
+(* every referenced rule is converted before the rules referring to it: the order of
+   collection.rules after loading, and again after Backend.convert re-resolved the references, is a
+   permutation of the documents in which every referenced rule precedes each of its referrers *)
+Theorem C09_topo :
+  forall ds rr o1, load ds = Ok (rr, o1) -> acyclic rr ->
+    Permutation o1 (seq 0 (length ds)) /\ topo_ok rr o1 /\
+    Permutation (topo rr o1) (seq 0 (length ds)) /\ topo_ok rr (topo rr o1).
+Proof. exact load_topo. Qed.
+Print Assumptions C09_topo.
+
+(* the ordering step alone, for any list of rules without repetition and any reference table *)
+Theorem C09_topo_general :
+  forall rr M, NoDup M -> Permutation (topo rr M) M /\
+    ((forall i, In i M -> incl (nth i rr []) M) -> acyclic rr -> topo_ok rr (topo rr M)).
+Proof. intros rr M H. split; [exact (topo_perm rr M H) | exact (topo_topo_ok rr M)]. Qed.
+Print Assumptions C09_topo_general.
+
+(* an acyclic rule set whose references all resolve is converted completely, in every case *)
+Theorem C09_conversion_total :
+  forall Q rplain rcorr ds rr, resolve_all ds = Some rr -> acyclic rr ->
+    exists c, pipeline Q rplain rcorr ds = Ok c.
+Proof. exact pipeline_total. Qed.
+Print Assumptions C09_conversion_total.
+
+(* a reference to a missing rule is reported as SigmaRuleNotFoundError at load time, and that error
+   is raised for no other reason *)
+Theorem C09_missing_ref :
+  forall Q rplain rcorr ds,
+    (pipeline Q rplain rcorr ds = SigmaErr E_NotFound <-> has_dangling ds) /\
+    (load ds = SigmaErr E_NotFound <-> has_dangling ds).
+Proof.
+  intros. split; [exact (pipeline_missing_ref Q rplain rcorr ds)|].
+  rewrite <- resolve_all_None. unfold load. destruct (resolve_all ds); split; congruence.
+Qed.
+Print Assumptions C09_missing_ref.
+
+(* output flag: every rule is converted (its result is stored for its referrers); a rule some
+   correlation rule refers to without asking for generation emits no query of its own; a rule that is
+   unreferenced or referenced only with generation enabled emits all its queries.  (A rule
+   referenced both with and without generation is left open by the property; the code suppresses.) *)
+Theorem C09_output_flag :
+  forall Q rplain rcorr ds c rr i,
+    pipeline Q rplain rcorr ds = Ok c -> resolve_all ds = Some rr -> i < length ds ->
+    get Q (c_results c) i <> None /\
+    ((exists k, referrer ds rr k i false) -> forall q, ~ In (i, q) (c_emitted c)) /\
+    ((forall k, ~ referrer ds rr k i false) ->
+       forall q, In q (own Q (c_results c) i) -> In (i, q) (c_emitted c)).
+Proof. exact pipeline_flags. Qed.
+Print Assumptions C09_output_flag.
+
+(* the reference table holds exactly what the reference strings say: rule j is in rr[i] iff one of
+   document i's references resolves to j, and resolving means: j carries that name / id *)
+Theorem C09_resolution_sound :
+  forall ds rr i j, resolve_all ds = Some rr -> In j (nth i rr []) ->
+    exists d, nth_error ds i = Some d /\ exists r, In r (doc_refs d) /\ lookup ds r = Some j
+      /\ exists t, nth_error ds j = Some t /\ matches r t = true.
+Proof.
+  intros ds rr i j H Hj. destruct (resolved_children ds rr i j H Hj) as [d [Hd [r [Hr Hl]]]].
+  exists d. split; [exact Hd|]. exists r. repeat split; auto. exact (lookup_Some ds r j Hl).
+Qed.
+Print Assumptions C09_resolution_sound.
+
+(* DEFECT D22 (repaired by a `fix:` commit): the ORIGINAL ordering step sorted(self.rules) with
+   __lt__ = "is referenced by" (model: CPython's binary insertion sort, pipeline_sorted).
+   FULL STATEMENT that was false of the original code:
+     forall ds p, Permutation p ds -> pipeline_sorted p fails <-> pipeline_sorted ds fails
+   witness: documents a, b, u, c -> [a, b], d -> [c, u]; in the order d, c, u, b, a the original code
+   fails with "Conversion result not available" although the document order a, b, u, c, d converts;
+   66 of the 120 orders fail.  The repaired pipeline converts all 120. *)
+Theorem C09_sorted_refuted :
+  exists ds p, Permutation p ds
+    /\ is_ok (pipeline_sorted str tq_plain tq_corr ds) = true
+    /\ pipeline_sorted str tq_plain tq_corr p = SigmaErr E_Conversion
+    /\ is_ok (pipeline str tq_plain tq_corr p) = true.
+Proof. exact sorted_refuted. Qed.
 Print Assumptions C09_sorted_refuted.
+
+Theorem C09_sorted_66_of_120 :
+  length (perms wit_docs) = 120 /\
+  length (filter (fun p => negb (is_ok (pipeline_sorted str tq_plain tq_corr p))) (perms wit_docs)) = 66 /\
+  forallb (fun p => is_ok (pipeline str tq_plain tq_corr p)) (perms wit_docs) = true.
+Proof. exact sorted_fails_66_of_120. Qed.
+Print Assumptions C09_sorted_66_of_120.
+
+(* known finding C09-duplicate-key-last-document-wins: without the premise unique_keys the result
+   depends on the document order *)
+Theorem C09_duplicate_key_refuted :
+  exists ds p q, Permutation p ds
+    /\ In q (emitted_queries (pipeline str tq_plain tq_corr ds))
+    /\ ~ In q (emitted_queries (pipeline str tq_plain tq_corr p)).
+Proof. exact duplicate_key_refuted. Qed.
+Print Assumptions C09_duplicate_key_refuted.
